@@ -134,7 +134,36 @@ struct Scenario {
     target: Vec<(Vec<u8>, Vec<u8>)>,
     labels: Vec<Vec<u8>>,
 }
+/// random small directory: the target publish adds several new labels at once (a split above an
+/// existing interior node together with an insertion below it needs two new labels sharing a prefix
+/// with existing ones, which tiny trees produce often) and may update an old one
+fn random_scenario(r: &mut Rng) -> Scenario {
+    let nb = 3 + r.below(4) as usize;
+    let nt = 2 + r.below(3) as usize;
+    let mut labels: Vec<Vec<u8>> = vec![];
+    while labels.len() < nb + nt {
+        let l = vec![b'r', r.next() as u8, r.next() as u8];
+        if !labels.contains(&l) {
+            labels.push(l);
+        }
+    }
+    let mut base = vec![];
+    base.push(labels[..nb].iter().enumerate().map(|(i, l)| (l.clone(), vec![1, i as u8])).collect::<Vec<_>>());
+    let upd: Vec<(Vec<u8>, Vec<u8>)> = labels[..nb].iter().enumerate().filter(|_| r.chance(1, 2)).map(|(i, l)| (l.clone(), vec![2, i as u8])).collect();
+    if !upd.is_empty() {
+        base.push(upd);
+    }
+    let mut target: Vec<(Vec<u8>, Vec<u8>)> = labels[nb..].iter().enumerate().map(|(i, l)| (l.clone(), vec![9, i as u8])).collect();
+    if r.chance(1, 2) {
+        target.push((labels[r.below(nb as u64) as usize].clone(), vec![9, 0xFF]));
+    }
+    Scenario { base, target, labels }
+}
+
 fn scenario(r: &mut Rng, shape: u32) -> Scenario {
+    if shape == 4 {
+        return random_scenario(r);
+    }
     let labels: Vec<Vec<u8>> = (0..5u8).map(|i| vec![b'k', i]).collect();
     let mut base = vec![];
     for e in 0..3u8 {
@@ -256,7 +285,7 @@ async fn c10_scenario<TC: Configuration>(cx: &mut Cx, sc: &Scenario, cached: boo
     }
 }
 
-async fn c11_scenario<TC: Configuration>(cx: &mut Cx, r: &mut Rng, sc: &Scenario, thorough: bool) {
+async fn c11_scenario<TC: Configuration>(cx: &mut Cx, r: &mut Rng, sc: &Scenario, thorough: bool, lite: bool) {
     let cfg = cfg_name::<TC>();
     let db = FaultDb::new();
     let dir = fdir::<TC>(&db, false, 0).await;
@@ -315,7 +344,7 @@ async fn c11_scenario<TC: Configuration>(cx: &mut Cx, r: &mut Rng, sc: &Scenario
     }
     // subsets: every prefix of several orders, random subsets; each without and with the epoch record
     let mut subsets: Vec<Vec<usize>> = vec![];
-    let orders = if thorough { 12 } else { 3 };
+    let orders = if lite { 1 } else if thorough { 12 } else { 3 };
     for o in 0..orders {
         let mut idx: Vec<usize> = (0..body.len()).collect();
         if o > 0 {
@@ -325,7 +354,7 @@ async fn c11_scenario<TC: Configuration>(cx: &mut Cx, r: &mut Rng, sc: &Scenario
             subsets.push(idx[..k].to_vec());
         }
     }
-    for _ in 0..(if thorough { 400 } else { 40 }) {
+    for _ in 0..(if lite { 4 } else if thorough { 400 } else { 40 }) {
         subsets.push((0..body.len()).filter(|_| r.chance(1, 2)).collect());
     }
     for (si, sub) in subsets.iter().enumerate() {
@@ -361,7 +390,10 @@ pub fn run(seed: u64, tier: u32, which: &str) -> Cx {
     let mut cx = Cx::new();
     let mut r = Rng::new(seed ^ 0xFA17);
     rt.block_on(async {
-        let shapes: Vec<u32> = if tier == 0 { vec![0, 2] } else { vec![0, 1, 2, 3, 3] };
+        let mut shapes: Vec<u32> = if tier == 0 { vec![0, 2] } else { vec![0, 1, 2, 3, 3] };
+        if which != "c10" {
+            shapes.extend(std::iter::repeat(4).take(if tier == 0 { 12 } else { 60 }));
+        }
         for (i, sh) in shapes.iter().enumerate() {
             let sc = scenario(&mut r, *sh);
             if which == "c10" {
@@ -375,7 +407,8 @@ pub fn run(seed: u64, tier: u32, which: &str) -> Cx {
                     }
                 }
             } else {
-                if i % 2 == 0 { c11_scenario::<W>(&mut cx, &mut r, &sc, tier != 0).await } else { c11_scenario::<E>(&mut cx, &mut r, &sc, tier != 0).await }
+                let lite = *sh == 4;
+                if i % 2 == 0 { c11_scenario::<W>(&mut cx, &mut r, &sc, tier != 0, lite).await } else { c11_scenario::<E>(&mut cx, &mut r, &sc, tier != 0, lite).await }
             }
         }
     });
